@@ -15,6 +15,7 @@ def run(tier, seed):
     # object-valued arguments are memo-key components: their == must be exactly structural equality (C14 contract)
     run_rt(rep, [rt_objects.EqC(), rt_objects.HashC()], tier)
     wiring.argument_adaptor_obligations(rep, tier)
+    wiring.a_subst_obligations(rep, tier)
     wiring.closure_obligations(rep, tier)
     wiring.callable_wrapper_obligations(rep, tier)
     wiring.key_adequacy_obligations(rep, tier)
